@@ -971,9 +971,9 @@ def run_c17_c18(ctx, prop):
             ctx.report(key, f"{v.get('what')}: {json.dumps(v.get('witness'), default=str)[:300]}", {'oracle_violation': v})
             reported += 1
     ctx.notes.append(f'label errata applied to {n_errata} witnesses')
-    if not ctx.build_ok and not reported:
+    if not ctx.build_ok and not ctx.violations:     # (known-finding hits do not count as found)
         ctx.report('obligation:build', 'generated obligations no longer build', {'log': ctx.build_log[-2000:]}, found=False)
-    elif broken and not reported:
+    elif broken and not ctx.violations:
         ctx.report('obligation:' + broken[0], f'proof obligation(s) no longer check: {broken[:5]}', {'broken': broken}, found=False)
 
 
@@ -1630,9 +1630,9 @@ def run_C02(ctx):
         ctx.report(key, f"{v['year']} {v['form']}.{v['line']} = {v.get('got')} but the form's instruction ({v['instruction']['op']} {v['instruction']['args']}) gives {v.get('expected')} on the solution's own values {v.get('operands')}",
                    {'kind': 'scenario', 'case': dict(v.get('replay', {}), kind='scenario', observe=f"{v['form']}.{v['line']}")})
         reported += 1
-    if not ctx.build_ok and not reported:
+    if not ctx.build_ok and not ctx.violations:     # (known-finding hits do not count as found)
         ctx.report('obligation:build', 'generated obligations no longer build (the Python mirror of the matcher and the Lean matcher disagree, or the model changed)', {'log': ctx.build_log[-2000:]}, found=False)
-    elif broken and not reported:
+    elif broken and not ctx.violations:
         ctx.report('obligation:' + broken[0], f'proof obligation(s) no longer check: {broken[:5]}', {'broken': broken}, found=False)
 
 
@@ -1697,9 +1697,9 @@ def run_C08(ctx):
     for d in res['template_checks'].get('disagreements', []):
         ctx.report(f"template:{d['template']}:{d['amount']}:{d['status']}", f"{d['template']} prints {d['printed']} for {d['amount']} ({d['status']}, {d['year']}); published {d['table']}", {'template': d})
         reported += 1
-    if not ctx.build_ok and not reported:
+    if not ctx.build_ok and not ctx.violations:     # (known-finding hits do not count as found)
         ctx.report('obligation:build', 'generated obligations no longer build (model and real code disagree on an evaluation, or the model changed)', {'log': ctx.build_log[-2000:]}, found=False)
-    elif broken and not reported:
+    elif broken and not ctx.violations:
         ctx.report('obligation:' + broken[0], f'proof obligation(s) no longer check: {broken[:5]}', {'broken': broken}, found=False)
 
 
@@ -1752,9 +1752,9 @@ def run_C09(ctx):
             for g in c.get(kind, []):
                 ctx.report(f'c09_{y}_{g}:{kind}', f'{y}: {g}: {kind} (the syntactic survey of guards and the reviewed gate list disagree: a guard was dropped, rewritten, or a new guarded input is unclassified)', {'survey': {kind: g, 'year': y}}, found=False)
                 reported += 1
-    if not ctx.build_ok and not reported:
+    if not ctx.build_ok and not ctx.violations:     # (known-finding hits do not count as found)
         ctx.report('obligation:build', 'generated obligations no longer build (Python mirror and Lean analysis disagree, or the model changed)', {'log': ctx.build_log[-2000:]}, found=False)
-    elif broken and not reported:
+    elif broken and not ctx.violations:
         ctx.report('obligation:' + broken[0], f'proof obligation(s) no longer check: {broken[:5]}', {'broken': broken}, found=False)
 
 
@@ -1828,9 +1828,9 @@ def run_C10(ctx):
         for u in d.get('static_only', []):
             ctx.report(f'c10_{y}_static_only_{u}', f'{y}: the AST cross-check finds an unresolved reference the Lean analysis does not report: {u}', {'static_only': u}, found=False)
             reported += 1
-    if not ctx.build_ok and not reported:
+    if not ctx.build_ok and not ctx.violations:     # (known-finding hits do not count as found)
         ctx.report('obligation:build', 'generated obligations no longer build (Python mirror and Lean analysis disagree, or the model changed)', {'log': ctx.build_log[-2000:]}, found=False)
-    elif broken and not reported:
+    elif broken and not ctx.violations:
         ctx.report('obligation:' + broken[0], f'proof obligation(s) no longer check: {broken[:5]}', {'broken': broken}, found=False)
 
 
@@ -2006,8 +2006,10 @@ PROPS = {
     'C16': dict(run=run_C16, theorems=['HabuVerif.C16.' + t for t in [
         'shapes_2021', 'shapes_2022', 'shapes_2023', 'withholding_total', 'renumbering_keeps_withholding',
         'net_is_payments_minus_tax', 'solved_net_is_payments_minus_tax', 'withholding_one_for_one',
-        'float_sum_line_total', 'float_sum_line_renumbering', 'float_sum_lines_2021', 'float_sum_lines_2022', 'float_sum_lines_2023']],
-        assumptions=['PARTIAL: proved in exact cents for Form 1040 line 25a and for the float(sum(copies)) lines 1040.2a, 8959.1, 8959.19 (sum over the copies: a function of the multiset of amounts, at most 64 copies of at most 1e9 dollars) and for refund-minus-owed = 25a+25b+25c+26+32-24 in every returned state (amounts up to 1e10 dollars); that lines 24, 25b, 25c, 26, 32 do not depend on W-2 box 2, the renumbering invariance of the other per-payer totals, and the monotonicity of total tax in wages and deductions are explored by the metamorphic oracle on real returns, not proved']),
+        'float_sum_line_total', 'float_sum_line_renumbering', 'float_sum_lines_2021', 'float_sum_lines_2022', 'float_sum_lines_2023',
+        'L25b.line25b_shape_2021', 'L25b.line25b_shape_2022', 'L25b.line25b_shape_2023', 'L25b.eval_25b', 'L25b.line25b_total',
+        'L25b.line25b_renumbering', 'L25b.line25b_one_for_one']],
+        assumptions=['PARTIAL: proved in exact cents for Form 1040 lines 25a and 25b (tax withheld on every W-2 / 1099-R / 1099-DIV / 1099-INT / 1099-G copy: total, renumbering, one cent for one cent) and for the float(sum(copies)) lines 1040.2a, 8959.1, 8959.19 (sum over the copies: a function of the multiset of amounts, at most 64 copies of at most 1e9 dollars) and for refund-minus-owed = 25a+25b+25c+26+32-24 in every returned state (amounts up to 1e10 dollars); that lines 24, 25c, 26, 32 do not depend on the withholding boxes, the renumbering invariance of the other per-payer totals, and the monotonicity of total tax in wages and deductions are explored by the metamorphic oracle on real returns, not proved']),
     'C17': dict(run=run_C17, theorems=['HabuVerif.C17.' + t for t in [
         'names_unique', 'threshold_lookup_total', 'all_threshold_lookups_total', 'names_clean',
         'every_class_instantiates', 'declared_year_is_directory_year', 'metadata_present']],
